@@ -201,12 +201,38 @@ pub fn scenarios(tier: Tier) -> Vec<LinkScenario<fn() -> Box<dyn Probe>>> {
     out
 }
 
+/// link-outage scenarios (run with their own deviation bound)
+pub fn outage_scenarios(tier: Tier) -> Vec<LinkScenario<fn() -> Box<dyn Probe>>> {
+    let r = 300u64;
+    let _ = r;
+    let mut out: Vec<LinkScenario<fn() -> Box<dyn Probe>>> = vec![];
+    // scale class: link outage of 3.25 s / 10 s beginning while sliced messages are partly delivered and partly acknowledged
+    for (dir, n) in [(0usize, 13u32), (1, 13), (0, 40)] {
+        if tier == Tier::Quick && n == 40 {
+            continue;
+        }
+        let chans = || vec![Chan::new(0, Kind::Ordered, 100_000, r), Chan::new(1, Kind::Unordered, 100_000, r), Chan::new(2, Kind::Unreliable, 100_000, 0)];
+        let mut cfg = LinkCfg::base(&format!("ord 3601 + unord 3601, outage of {} ms from tick 2, dir{}", n * 250, dir), chans(), chans());
+        cfg.dt_ms = vec![250];
+        cfg.horizon = 2;
+        cfg.outage = Some((2, 2 + n));
+        cfg.tail = n + 8;
+        cfg.drains = vec![Drain::End];
+        cfg.script = vec![Send { tick: 0, dir, ch: 0, len: 3601 }, Send { tick: 0, dir, ch: 1, len: 3601 }];
+        out.push(LinkScenario { cfg, probe: (|| Box::new(ReleaseProbe::new()) as Box<dyn Probe>) as fn() -> Box<dyn Probe> });
+    }
+    out
+}
+
 pub fn run(tier: Tier) -> i32 {
     let mut rep = Report::new("C08", tier);
     rep.rule("M2: every schedule with <= d deviations on data AND ack packets (drop/dup/delay1/delay2/dup-late, batch reversal) over 5 ticks per scenario + tail; oracle after every library call: a message that left the sender's unacknowledged set (hook) / whose bytes are back in channel_available_memory had every packet needed to rebuild it handed to the peer's process_packet; every emitted ack packet only covers sequence numbers handed to that endpoint");
     rep.assume("release is observed through the read-only snapshot hook and cross-checked against the public channel_available_memory");
     let sc = scenarios(tier);
     run_link_scenarios(&mut rep, "m2", &sc, tier.pick(3, 4), tier.pick(120.0, 3000.0));
+    if rep.machinery.is_none() {
+        super::run_link_scenarios_from(&mut rep, "m2-outage", &outage_scenarios(tier), tier.pick(2, 3), tier.pick(120.0, 3000.0), 3000);
+    }
     if rep.machinery.is_none() {
         super::ackworld::run_c08(&mut rep, tier);
     }
@@ -342,6 +368,9 @@ pub fn replay(j: &J) -> i32 {
             return super::soup::replay_soup(j, Kind::Unordered, super::soup::O_RELEASE);
         }
         return super::ackworld::replay(j);
+    }
+    if j.get("scenario_index").and_then(|x| x.as_i()).unwrap_or(0) >= 3000 {
+        return super::replay_link_from(&outage_scenarios(tier), j, 3000);
     }
     replay_link(&scenarios(tier), j)
 }
